@@ -57,9 +57,9 @@ pub fn rand_len(inst: &Inst) -> usize {
         "prio2" => 64,
         _ => {
             if inst.has_joint_rand() {
-                2 * n * 32
+                2 * n * inst.seed_size()
             } else {
-                n * 32
+                n * inst.seed_size()
             }
         }
     }
